@@ -1519,6 +1519,64 @@ func (w *world) queryCallAt(to *common.Address, data []byte, height int64) (ret 
 	return out.Ret, out.VmError, nil
 }
 
+// estimateGas: gRPC EstimateGas (eth_estimateGas) for a call to `to` with data, on the latest committed state
+func (w *world) estimateGas(to common.Address, data []byte) (uint64, error) {
+	from := w.prob.GetEthAddress()
+	gas := hexutil.Uint64(300_000)
+	input := hexutil.Bytes(data)
+	args, err := json.Marshal(evmtypes.TransactionArgs{From: &from, To: &to, Gas: &gas, Input: &input})
+	if err != nil {
+		return 0, err
+	}
+	bz, err := proto.Marshal(&evmtypes.EthCallRequest{Args: args, GasCap: 25_000_000})
+	if err != nil {
+		return 0, err
+	}
+	res, err := w.c.App.BaseApp.Query(context.Background(), &abci.RequestQuery{Path: "/ethermint.evm.v1.Query/EstimateGas", Data: bz})
+	if err != nil {
+		return 0, err
+	}
+	if res.Code != 0 {
+		return 0, fmt.Errorf("query failed: %s", res.Log)
+	}
+	var out evmtypes.EstimateGasResponse
+	if err := out.Unmarshal(res.Value); err != nil {
+		return 0, err
+	}
+	return out.Gas, nil
+}
+
+// oracleEstimate: eth_estimateGas builds its EVM instances through the same NewEVM; what it reports must fit what
+// eth_call saw on the same state: nothing at the address => exactly the intrinsic gas; a contract answering => at least
+// that (name() of the three contracts is free); a failing call (disabled contract, unknown selector of an enabled
+// one) <=> no estimate.  With the unknown selector the estimate so tells a registered contract from an empty address.
+func (w *world) oracleEstimate(s *regState, a common.Address, pk probeKind, call pres, desc interface{}) {
+	if isStd(a) || call.Class == "TxRejected" {
+		return
+	}
+	in := probeSel[pk]
+	intrinsic, err := core.IntrinsicGas(in, nil, false, true, true)
+	require.NoError(w.t, err)
+	g, err := w.estimateGas(a, in)
+	class := "more-than-intrinsic"
+	switch {
+	case err != nil:
+		class = "no-estimate"
+	case g == intrinsic:
+		class = "intrinsic"
+	case g < intrinsic:
+		class = "less-than-intrinsic"
+	}
+	w.side.Count("estimate-gas:" + call.Class + ":" + class)
+	want := map[string]string{"OkEmpty": "intrinsic", "OkStr": "more-than-intrinsic", "OkUint": "more-than-intrinsic", "Revert": "no-estimate", "Fail": "no-estimate"}[call.Class]
+	if (call.Class == "OkStr" || call.Class == "OkUint") && class == "intrinsic" {
+		want = class
+	}
+	if want != "" && want != class {
+		w.hit(sigModeDiffers, fmt.Sprintf("EstimateGas %s -> %s: %s (gas %d, intrinsic %d, err %v), but eth_call on the same state gave %s", probeNames[pk], a.Hex(), class, g, intrinsic, err, call), desc)
+	}
+}
+
 func (w *world) candidates(cur *regState) []common.Address {
 	r := w.r
 	seen := map[common.Address]bool{}
@@ -1602,6 +1660,10 @@ func (w *world) probeAll(cur *regState) []probeObs {
 	}
 	w.commitBlock(nil) // direct writes become the committed state: check state and query state are now this state
 	w.refreshPrice()
+	estimateFor := map[common.Address]bool{}
+	for _, a := range nested {
+		estimateFor[a] = true
+	}
 	var out []probeObs
 	base := c.Nonce(c.QueryCtx(), w.prob.GetEthAddress())
 	rejected := func(mode int, cl callSpec, why string) {
@@ -1625,6 +1687,9 @@ func (w *world) probeAll(cur *regState) []probeObs {
 			rejected(3, cl, err.Error())
 		} else {
 			seen(3, cl, ret, vmErr)
+			if cl.via == 0 && (cl.pk == prName || cl.pk == prGarbage) && estimateFor[cl.target] {
+				w.oracleEstimate(cur, cl.target, cl.pk, out[len(out)-1].Res, fmt.Sprintf("estimate-gas probe after step %d", w.curStep))
+			}
 		}
 		ret, vmErr, err = w.checkModeCall(msgSim)
 		if err != nil {
